@@ -232,7 +232,9 @@ def event_script(route, origin, rng, length, grant, mc_focus=False):
     """A random sequence of events after a complete setup; the queue is drained at the end."""
     has_mc = any(r['mc'] for r in route)
     # registration order is not alphabetical: the selector keeps its clients in an ordered map
-    clients = rng.sample(['A', 'B', 'C'], rng.randint(1, 3)) if has_mc else []
+    # ... and identifiers are arbitrary strings: look-alikes that differ in a leading zero or in case are different clients
+    pool = rng.choice([['A', 'B', 'C'], ['A', 'B', 'C'], ['cam1', 'cam01', 'cam10'], ['7', '07', '007'], ['a', 'A', 'Aa']])
+    clients = rng.sample(pool, rng.randint(1, 3)) if has_mc else []
     cmds = setup_cmds(route, origin, rng, clients)
     counter = [0]
     token = [10]
